@@ -26,8 +26,10 @@ def jobs(tier, kinds=("lang",), n_quick=5, n_thorough=7, algos=("lane", "lr1", "
         if getattr(g, "heavy", False) and tuple(kinds) != ("lang",):
             continue
         for algo in algos:
-            if getattr(g, "heavy", False) and tier == "quick" and algo != "lr1":
-                continue        # heavy grammars: one configuration in the quick tier
+            if getattr(g, "heavy", False) and tier == "quick":
+                continue        # heavy grammars (i16 tables): thorough tier only
+            if getattr(g, "min_n", 0) >= 7 and tier == "quick" and algo != "lane":
+                continue        # long-sentence grammars: one configuration in the quick tier
             if algo == "lalr" and g.not_lalr:
                 continue
             for s in g.pub_nts():
@@ -35,8 +37,16 @@ def jobs(tier, kinds=("lang",), n_quick=5, n_thorough=7, algos=("lane", "lr1", "
     return out
 
 
+def sugar_jobs(tier):
+    """C01 also quantifies over grammars with macros, repetitions, inlining and precedence: a few of each (their own properties go deeper)"""
+    from corpus import sugar
+    from props import sugarprops as SP
+    gs = sugar.prec_grammars(0)[:3] + sugar.macro_grammars(0)[:3] + [g for g in sugar.inline_variants(0) if set(g.name.split("_")[-1]) == {"1"}]
+    return SP.lang_jobs(gs, tier, algos_quick=("lane",), algos_thorough=("lane", "lr1"))
+
+
 def run(tier):
-    return e1run.run_property(PID, tier, jobs(tier), native_len=3 if tier == "quick" else 4,
+    return e1run.run_property(PID, tier, jobs(tier) + sugar_jobs(tier), native_len=3 if tier == "quick" else 4,
                               timeout_s=600 if tier == "quick" else 3000, functions=FUNCTIONS, assumptions=ASSUME)
 
 
